@@ -55,6 +55,7 @@ from streamflow.workflow.utils import get_job_token
 from harness.props._recov_shapes import apply_op, denote, step_names  # noqa: F401
 
 DEPLOYMENT = "verif-volatile"
+ENGINE_TIMEOUT = 40
 
 import logging as _logging
 from streamflow.log_handler import logger as _sf_logger
@@ -69,11 +70,16 @@ class Scenario:
         self.attempts = {}    # (step_name, tag, phase) -> attempts so far
         self.trace = []       # events in the order the real code produced them
         self.workdir = None
-        self.block = {}       # job name -> asyncio.Event the command waits on before completing (C19)
-        self.started = {}     # job name -> asyncio.Event set when its command starts
+        self.barrier = None   # {"jobs": set, "arrived": int, "event": Event, "wipe": bool}: failing first attempts meet here
+        self.hold = None      # {"job", "attempt", "syncs", "seen", "event"}: that attempt waits until `syncs` recoveries synchronised
 
     def ev(self, *e):
         self.trace.append(list(e))
+        h = self.hold
+        if h is not None and e[0] == "sync-end":
+            h["seen"] += 1
+            if h["seen"] >= h["syncs"]:
+                h["event"].set()
 
     def should_fail(self, step_name, tag, phase):
         k = (step_name, tag, phase)
@@ -211,10 +217,21 @@ class VCommand(Command):
         tag = get_job_tag(job.name)
         kind, n = SC.should_fail(self.step.name, tag, "execute")
         SC.ev("exec", job.name, n, "fail" if kind else "ok")
-        if job.name in SC.started:
-            SC.started[job.name].set()
-        if kind is None and job.name in SC.block:
-            await SC.block[job.name].wait()
+        b = SC.barrier
+        if kind is not None and b is not None and job.name in b["jobs"] and n == 1:
+            b["arrived"] += 1
+            if b["arrived"] >= len(b["jobs"]):
+                if b["wipe"]:
+                    _wipe_workdir()   # one loss, at the moment all of them fail
+                b["event"].set()
+            else:
+                await b["event"].wait()
+        h = SC.hold
+        if kind is None and h is not None and job.name == h["job"] and n == h["attempt"]:
+            try:
+                await asyncio.wait_for(h["event"].wait(), 30)
+            except asyncio.TimeoutError:
+                SC.ev("hold-timeout")
         if kind is not None:
             if kind == "failstop":
                 _wipe_workdir()
@@ -502,6 +519,12 @@ async def _run(case, hooks=None):
     SC.workdir = workdir
     for st, tag, phase, kind, cnt in case.get("faults", []):
         SC.plan[(st, tag, phase)] = (cnt, kind)
+    if case.get("barrier"):
+        SC.barrier = {"jobs": set(case["barrier"]["jobs"]), "arrived": 0, "event": asyncio.Event(),
+                      "wipe": bool(case["barrier"].get("wipe"))}
+    if case.get("hold"):
+        SC.hold = {"job": case["hold"]["job"], "attempt": case["hold"]["attempt"], "syncs": case["hold"]["syncs"],
+                   "seen": 0, "event": asyncio.Event()}
     seedfile = os.path.join(base, "seed.txt")
     with open(seedfile, "w") as f:
         f.write("seed")
@@ -568,7 +591,14 @@ def run_engine(case, hooks=None):
     loop = PermutingLoop(case.get("sched"))
     asyncio.set_event_loop(loop)
     try:
-        return loop.run_until_complete(_run(case, hooks))
+        # a clean, in-loop time limit (cancellation runs the scenario's own cleanup: database thread, deployment),
+        # well below the worker's SIGALRM limit, so that a hanging scenario cannot poison the cases that follow it
+        async def limited():
+            try:
+                return await asyncio.wait_for(_run(case, hooks), ENGINE_TIMEOUT)
+            except asyncio.TimeoutError:
+                return {"hang": True, "trace_tail": SC.trace[-40:]}
+        return loop.run_until_complete(limited())
     finally:
         try:
             for t in asyncio.all_tasks(loop):
